@@ -24,6 +24,8 @@ def sh(cmd, cwd=None, timeout=1800, env=None):
 def demo_cmd(demo_src, root, out):
     head = open(demo_src).read(3000)
     san = '-fsanitize=address,undefined' if 'fsanitize' in head else ''
+    if 'fno-sanitize-recover' in head:
+        san += ' -fno-sanitize-recover=all'
     return 'g++ -std=c++14 -O1 -g %s -I %s/include -I %s/test %s -o %s -lpthread' % (san, root, root, demo_src, out)
 
 
